@@ -103,7 +103,13 @@ pub(super) async fn receive_batch_body_no_multipart(
     content_type: &mime::Mime,
     body: impl AsyncRead + Send,
 ) -> Result<BatchRequest, ParseRequestError> {
-    assert_ne!(content_type.type_(), mime::MULTIPART, "received multipart");
+    // The content type of a part is chosen by the client: a nested multipart
+    // document is not a GraphQL request.
+    if content_type.type_() == mime::MULTIPART {
+        return Err(ParseRequestError::InvalidRequest(
+            "a multipart document is not a GraphQL request".into(),
+        ));
+    }
     receive_batch_json(body).await
 }
 
